@@ -484,6 +484,8 @@ def run(m, tier):
     results += shapes_rules.c10_rules(m)
     from rules import guard_rules
     results.append(guard_rules.node_identity_rule(m, "C10.R9"))
+    from rules import prog_rules
+    results.append(prog_rules.tree_rule(m, "C10.R10", tier))
     expl = ("Decides structural clauses of C10: who assigns .parent; Base.__new__ parents the children of every node it builds before "
             "init/return (typestate over its paths) and overriding __new__ methods delegate or build confirmed leaf nodes; every init "
             "stores what it is given into items/content (what `children` returns) and later stores only rearrange a node's own items; "
